@@ -87,7 +87,8 @@ def run(ids, tier, props):
                 if not os.path.exists(f"/verif/vf/checks/{p.lower()}.py"):
                     continue
                 t = time.time()
-                rr = sh(["/venv/bin/python", "-m", "vf", p, "--tier", tier], cwd="/verif")
+                # evidence and replays of runs against a deliberately broken tree go to a scratch directory, not to /verif/evidence
+                rr = sh(["/venv/bin/python", "-m", "vf", p, "--tier", tier], cwd="/verif", env=dict(os.environ, VF_OUT="/tmp/vf_seed_out"))
                 viol = [l for l in rr.stdout.splitlines() if l.startswith("VIOLATION")]
                 keys = [l.strip()[4:] for l in rr.stdout.splitlines() if l.strip().startswith("key=")]
                 st = "DETECTED" if rr.returncode == 1 and viol else f"MISSED(rc={rr.returncode})"
